@@ -28,7 +28,7 @@ LINE_FUNCS = ['TT.__matmul__', 'dense_matvec', 'TT.t', 'TT.full']
 DT = ['f64', 'f64', 'f32', 'c128']
 OPS = ['Ax', 'xA', 'AB', 'Adense', 't', 'add', 'sub', 'mul', 'full', 'neg']
 SC_OPS = ['add', 'radd', 'sub', 'rsub', 'mul', 'rmul', 'div']
-SC_KINDS = ['int', 'float', 'complex', 'npf64', 't0', 't1', 'zero', 'float_nr', 'npf64_nr', 't0_nr']
+SC_KINDS = ['int', 'float', 'complex', 'npf64', 't0', 't1', 'zero', 'float_nr', 'npf64_nr', 't0_nr', 't0_f32', 't0_i64', 't1_i32']
 
 
 def three_distinct(rng, d, pool=(1, 2, 3, 4, 5)):
@@ -69,6 +69,8 @@ def cases(tier, seed):
                     if sk == 'complex' and dt != 'c128':
                         continue
                     if op == 'div' and sk in ('complex', 'zero'):
+                        continue
+                    if sk == 't0_f32' and dt == 'f32':
                         continue
                     if tier == 'quick' and dt != 'f64' and (len(M) + SC_KINDS.index(sk) + SC_OPS.index(op)) % 3:
                         continue
@@ -212,7 +214,7 @@ def run_scalar(case, ctx, g):
     sr = scalar_ref(kind, s)
     fns = {'add': lambda a, b: a + b, 'radd': lambda a, b: b + a, 'sub': lambda a, b: a - b, 'rsub': lambda a, b: b - a,
            'mul': lambda a, b: a * b, 'rmul': lambda a, b: b * a, 'div': lambda a, b: a / b}
-    skind = 'tensor-scalar' if kind in ('t0', 't1', 't0_nr') else ('numpy-scalar' if kind.startswith('np') else 'python-scalar')
+    skind = 'tensor-scalar' if kind in ('t0', 't1', 't0_nr') else ('tensor-scalar(other dtype)' if kind in ('t0_f32', 't0_i64', 't1_i32') else ('numpy-scalar' if kind.startswith('np') else 'python-scalar'))
     key = 'scalar/%s/%s' % (op, skind)
     what = 'A %s scalar(%s=%r) M=%s N=%s R=%s %s' % (op, kind, sr, case['M'], case['N'], case['R'], case['dtype'])
     ctx.count('branch:scalar')
